@@ -59,7 +59,14 @@ RULE = (
     "Precursor, PeptideGroup) and with proteins=, header line of every result file; roll-up tool runs = "
     "brew_rollup.main on result files of assign_confidence x base level (psm | precursor | peptide) x extra levels x "
     "options given | defaulted x PEP estimator real (hist_nnls; thorough also kde_nnls, qvality) or stub (pointwise, "
-    "ones, SystemExit, exception)"
+    "ones, SystemExit, exception); THIRD PASS (third stream): on every real estimator case the histogram side is compared with "
+    "Model/PepsHist.lean (counts exactly; midpoints / densities / the system handed to scipy.optimize.nnls / the values from the "
+    "bin edges or densities on within the float tolerance); re-use cases = estimator (entry point | function called directly) x "
+    "(data set A, then the same two array objects refilled in place with B, third call, data set C in objects allocated right "
+    "after the first were freed, A again), every answer compared bit for bit with a first call on distinct live objects; "
+    "small-scope sweeps = fit_nnls on all count vectors in {0,1,2,3}^N (N <= 3, thorough 5) + random longer ones, "
+    "hist_data_from_scores with explicit edges on all score vectors over 6 values (on / between / outside the edges) x all "
+    "labellings x 3 edge sets x density on/off (n <= 2, thorough 3)"
 )
 
 TOL = 1e-9          # float64 composition vs. exact rational model
@@ -82,6 +89,8 @@ class Rec:
         self.pi0_calls = []   # estimate_pi0_by_slope: dict(t=target_pdf, d=decoy_pdf, thr=threshold, out=value)
         self.mono_in = []     # monotonize_nnls(x, w, ascending=False): (x, w) of the outer call
         self.inputs_modified = None   # which of the caller's arrays the estimator changed in place
+        self.nnls_in = []     # (A, b) handed to scipy.optimize.nnls (third pass)
+        self.hist_calls = []  # hist_data_from_scores: dict(scores, targets, density, edges, out=(es, tc, dc))
 
 
 @contextlib.contextmanager
@@ -101,7 +110,11 @@ def recording(stub_kernel=None, stub_pi0=None):
     o_nnls = P.nnls
 
     def nnls(*a, **k):
-        r = o_nnls(*a, **k)
+        r = o_nnls(*a, **k)   # (SciPy >= 1.17 refuses `atol` with a TypeError: fit_nnls then calls again without it)
+        try:
+            rec.nnls_in.append((np.array(a[0], dtype=float), np.array(a[1], dtype=float)))
+        except Exception:  # noqa: BLE001
+            rec.nnls_in.append(None)
         rec.nnls.append(np.array(r[0], dtype=float))
         return r
 
@@ -129,6 +142,18 @@ def recording(stub_kernel=None, stub_pi0=None):
                 return None, None, None
             r = orig(*a, **k)
             rec.hist_grid.append(np.array(r[0], dtype=float))
+            try:
+                sc = np.array(a[0], dtype=float)
+                tg = np.array(a[1], dtype=bool)
+                bins = a[2] if len(a) > 2 else k.get("bins")
+                dens = a[3] if len(a) > 3 else k.get("density", False)
+                # the trusted kernel: numpy's automatic joint bin edges of ALL scores (what the model's `binEdges`
+                # parameter stands for); how the code uses them is the model's
+                edges = np.histogram_bin_edges(sc, bins="auto") if bins is None else np.array(bins, dtype=float)
+                rec.hist_calls.append(dict(scores=sc, targets=tg, density=bool(dens), edges=np.array(edges, dtype=float),
+                                           out=tuple(np.array(x) for x in r)))
+            except Exception:  # noqa: BLE001
+                rec.hist_calls.append(None)
             return r
         return hist
 
@@ -665,10 +690,223 @@ def flush_kernel_side(chk):
     del ks[:]
 
 
+# ----------------------------------------------------------------------------------------------
+# THIRD PASS: the histogram side and the NNLS systems (Model/PepsHist.lean)
+# ----------------------------------------------------------------------------------------------
+def v_slope(t, d, thr):
+    """the two numeric parameters of the model of estimate_pi0_by_slope (the float product threshold * max and
+    np.polyfit's slope), computed with the same numpy primitives on the same arrays -> (v, slope, last_index)"""
+    v = thr * np.max(d)
+    hit = np.nonzero(d >= v)[0]
+    li = int(hit[0]) if len(hit) else 0
+    slope = 0.0
+    if li >= 2 and np.ptp(d[:li]) != 0:
+        with warnings.catch_warnings():
+            warnings.simplefilter("ignore")
+            slope = float(np.polyfit(d[:li], t[:li], 1)[0])
+    return float(v), slope, li
+
+
+def want_quadratic(s, stub=False):
+    return len(s) <= 500 or len(s) % 3 == 0 or bool(stub)
+
+
+def hist_side_requests(chk, alg, case, s, t, out, rec):
+    """queue the comparisons of the code between the raw scores and the NNLS solution with Model/PepsHist.lean:
+    np.histogram on the joint edges (midpoints, counts / densities), the factor and the system handed to
+    scipy.optimize.nnls by fit_nnls / monotonize_nnls, and the pipelines from the bin edges (kde: densities) on"""
+    hs = chk._hside
+    if alg in ("hist_nnls", "from_peps", "from_counts"):
+        if len(rec.hist_calls) != 1 or rec.hist_calls[0] is None:
+            chk.corr_break(f"histdata:{alg}", dict(case=jsonable(case, alg),
+                                                   error=f"hist_data_from_scores called {len(rec.hist_calls)} times / not recorded"))
+            return
+        c = rec.hist_calls[0]
+        if not (np.array_equal(c["scores"], s) and np.array_equal(c["targets"], t)):
+            chk.corr_break(f"histdata:{alg}", dict(case=jsonable(case, alg),
+                                                   error="hist_data_from_scores did not receive the caller's scores / targets"))
+            return
+        dens = alg == "from_counts"
+        if c["density"] != dens:
+            chk.corr_break(f"histdata:{alg}", dict(case=jsonable(case, alg), error=f"density={c['density']}"))
+            return
+        edges = c["edges"]
+        if len(edges) < 2 or not np.isfinite(edges).all() or (np.diff(edges) <= 0).any():
+            chk.reject(f"{alg}:degenerate-bin-edges")
+            return
+        chk.count("hist_bins", min(200, (len(edges) - 1) // 10 * 10))
+        P_, E = psms(s, t), fl(edges)
+        hs.append(("histdata", alg, case, c, req("histdata", E, P_, dens)))
+        if len(rec.pi0_calls) != 1:
+            return
+        pc = rec.pi0_calls[0]
+        if not (np.isfinite(pc["t"]).all() and np.isfinite(pc["d"]).all() and len(pc["d"])):
+            return
+        v, slope, li = v_slope(pc["t"], pc["d"], pc["thr"])
+        if not (math.isfinite(v) and math.isfinite(slope)):
+            return
+        if alg in ("hist_nnls", "from_peps"):
+            if len(rec.nnls_in) == 1 and rec.nnls_in[0] is not None:
+                hs.append(("histsystem", alg, case, (rec.nnls_in[0], rec.pi0[0]), req("histsystem", E, F(v), F(slope), P_)))
+            if len(rec.nnls) == 1 and len(rec.nnls[0]) + 1 == len(edges) and np.isfinite(rec.nnls[0]).all():
+                if alg == "hist_nnls":
+                    hs.append(("histnnlsfull", alg, case, out, req("histnnlsfull", E, F(v), F(slope), fl(rec.nnls[0]), P_)))
+                elif want_quadratic(s):
+                    ind = [int(i) for i in np.argsort(-np.array(s, dtype=float))]
+                    hs.append(("frompepsfull", alg, case, out,
+                               req("frompepsfull", E, F(v), F(slope), fl(rec.nnls[0]), P_, ind)))
+        elif want_quadratic(s):
+            ind = [int(i) for i in np.argsort(-np.array(s, dtype=float))]
+            hs.append(("fromcountsfull", alg, case, (out, c, pc, v, li), req("fromcountsfull", E, F(v), F(slope), P_, ind)))
+    elif alg == "kde_nnls":
+        if not (len(rec.pi0_calls) == 1 and len(rec.kde_grid) == 1 and len(rec.nnls) == 1 and rec.mono_in):
+            return
+        pc = rec.pi0_calls[0]
+        es, d = rec.kde_grid[0], rec.nnls[0]
+        if not (np.isfinite(pc["t"]).all() and np.isfinite(pc["d"]).all() and np.isfinite(d).all() and np.isfinite(es).all()):
+            return
+        v, slope, li = v_slope(pc["t"], pc["d"], pc["thr"])
+        if math.isfinite(v) and math.isfinite(slope) and len(es) == len(d) == len(pc["t"]):
+            hs.append(("kdennlsfull", alg, case, (out, pc["t"]),
+                       req("kdennlsfull", fl(es), fl(pc["t"]), fl(pc["d"]), F(v), F(slope), fl(d), fl(s))))
+        if len(rec.nnls_in) == 1 and rec.nnls_in[0] is not None:
+            x, w = rec.mono_in[-1]
+            check_mono_system(chk, alg, case, rec.nnls_in[0], x, w)
+
+
+def mono_rows(chk, n):
+    """the rows of Model `monoRows n` from the driver (asked once per size)"""
+    cache = chk.__dict__.setdefault("_mono_rows", {})
+    if n not in cache:
+        r = common.driver_batch([req("monosystem", n)])[0]
+        cache[n] = np.array(deep(a_rat, dec(r)), dtype=float).reshape(n, n)
+    return cache[n]
+
+
+def check_mono_system(chk, alg, case, nnls_in, x, w):
+    """what monotonize_nnls(x, w, ascending=False) handed to scipy.optimize.nnls: diag(sqrt(w[::-1])) @ tril(ones),
+    sqrt(w[::-1]) * x[::-1] — the matrix rows are the model's (`monoRows`, C06_mono_nnls_system_rows)"""
+    A, b = nnls_in
+    n = len(x)
+    if w is None or A.shape != (n, n) or b.shape != (n,):
+        chk.corr_break(f"monosystem:{alg}", dict(case=jsonable(case, alg), error=f"system of shape {A.shape}, {b.shape} for {n} points"))
+        return
+    sw = np.sqrt(np.asarray(w, dtype=float)[::-1])
+    expA = sw[:, None] * mono_rows(chk, n)
+    expb = sw * np.asarray(x, dtype=float)[::-1]
+    if close(A, expA) and close(b, expb):
+        chk.count("hist_side_agrees", f"monosystem:{alg}")
+    else:
+        bad = np.argwhere(~(np.abs(A - expA) <= TOL * (1.0 + np.abs(expA))))
+        chk.corr_break(f"monosystem:{alg}", dict(case=jsonable(case, alg), first_bad_entry=[int(z) for z in bad[0]] if len(bad) else None,
+                                                 impl=[float(z) for z in A[:3, :6].ravel()], model=[float(z) for z in expA[:3, :6].ravel()]))
+
+
+def system_agrees(nnls_in, rows, rhs, w2):
+    A, b = nnls_in
+    rows = np.asarray(rows, dtype=float)
+    n = len(rhs)
+    rows = rows.reshape(n, n) if n else rows.reshape(0, 0)
+    sw = np.sqrt(np.asarray(w2, dtype=float))
+    if A.shape != rows.shape or b.shape != (n,):
+        return False
+    return close(A, sw[:, None] * rows) and close(b, sw * np.asarray(rhs, dtype=float))
+
+
+def exact_flank(counts, edges, v):
+    """(last_index, no_flank) of estimate_pi0_by_slope on the EXACT densities counts / width / total (what the
+    rational model computes), to recognise inputs on which the float densities take the other branch only because
+    float bin widths are rounded (equal counts in bins whose float widths differ in the last bit, or vice versa)"""
+    tot = int(sum(int(c) for c in counts))
+    E = fl(edges)
+    if tot == 0:
+        return None
+    dens = [Fraction(int(c)) / (E[i + 1] - E[i]) / tot for i, c in enumerate(counts)]
+    li = next((i for i, x in enumerate(dens) if x >= F(v)), 0)
+    flank = dens[:li]
+    return li, (li < 2 or all(x == flank[0] for x in flank))
+
+
+def flush_hist_side(chk):
+    hs = getattr(chk, "_hside", None)
+    if not hs:
+        return
+    resp = common.driver_batch([h[4] for h in hs])
+    for (op, alg, case, impl, _line), r in zip(hs, resp):
+        r = r.strip()
+        ok, detail = False, {}
+        try:
+            if op == "histdata":
+                es, tc, dc = impl["out"]
+                if r.startswith("["):
+                    m = dec(r)
+                    mes = np.array(deep(a_rat, m[0]), dtype=float)
+                    if impl["density"]:
+                        mt, md = np.array(deep(a_rat, m[1]), dtype=float), np.array(deep(a_rat, m[2]), dtype=float)
+                        ok = close(es, mes) and close(tc, mt) and close(dc, md)
+                    else:
+                        mt, md = [int(a_int(x)) for x in m[1]], [int(a_int(x)) for x in m[2]]
+                        ok = close(es, mes) and [int(x) for x in tc] == mt and [int(x) for x in dc] == md
+                        # "every PSM is counted exactly once" (C06_hist_counts_partition) on the code's own counts
+                        if ok and int(np.sum(tc)) + int(np.sum(dc)) != len(impl["scores"]):
+                            chk.spec_violation(f"histogram-drops-psms:{alg}",
+                                               dict(case=jsonable(case, alg), counted=int(np.sum(tc)) + int(np.sum(dc)),
+                                                    psms=len(impl["scores"]),
+                                                    clause="each PSM receives one value of ITS score bin: the joint histogram does "
+                                                           "not count every PSM exactly once"))
+                            continue
+                    detail = dict(impl=dict(es=[float(x) for x in es[:8]], t=[float(x) for x in tc[:12]], d=[float(x) for x in dc[:12]]),
+                                  model=r[:300])
+            elif op == "histsystem":
+                nnls_in, factor = impl
+                if r.startswith("["):
+                    m = dec(r)
+                    mf = float(a_rat(m[0]))
+                    rows, rhs, w2 = deep(a_rat, m[1]), deep(a_rat, m[2]), deep(a_rat, m[3])
+                    okf = abs(mf - float(factor)) <= 1e-12 * max(1.0, abs(float(factor)))
+                    ok = okf and system_agrees(nnls_in, rows, rhs, w2)
+                    detail = dict(impl=dict(factor=float(factor), b=[float(x) for x in nnls_in[1][:12]],
+                                            A_diag=[float(x) for x in np.diag(nnls_in[0])[:12]]),
+                                  model=dict(factor=mf, rhs=[float(x) for x in rhs[:12]], w2=[float(x) for x in w2[:12]]))
+            elif op in ("histnnlsfull", "frompepsfull"):
+                m = parse_model(r)
+                ok = (not isinstance(m, str)) and close(impl, m)
+                detail = dict(impl=[float(x) for x in impl[:30]], model=r[:300])
+            elif op == "kdennlsfull":
+                out, tden = impl
+                m = parse_model(r)
+                ok = (not isinstance(m, str)) and close(out, m)
+                detail = dict(impl=[float(x) for x in out[:30]], model=r[:300])
+            elif op == "fromcountsfull":
+                out, c, pc, v, li = impl
+                m = parse_model(r)
+                if isinstance(m, str):
+                    ok = (m == "inf-all" and np.isinf(out).all()) or (m == "nan-all" and np.isnan(out).all())
+                else:
+                    ok = close(out, m)
+                if not ok:
+                    ex = exact_flank(c["out"][2], c["edges"], v)
+                    fl_noflank = li < 2 or np.ptp(pc["d"][:li]) == 0
+                    if ex is not None and ex != (li, bool(fl_noflank)):
+                        chk.float_boundary += 1
+                        chk.count("fromcounts_density_rounding_branch")
+                        continue
+                detail = dict(impl=[float(x) for x in out[:30]], model=r[:300])
+        except Exception as e:  # noqa: BLE001
+            detail = dict(error=repr(e)[:300], model=r[:200])
+        if ok:
+            chk.count("hist_side_agrees", f"{op}:{alg}")
+        else:
+            chk.corr_break(f"{op}:{alg}", dict(case=jsonable(case, alg), **detail))
+    del hs[:]
+
+
 def eval_one(chk, case, alg, perm, pending, stub=None):
     """run the implementation on the case and on its permuted copy; queue the model request"""
     if not hasattr(chk, "_kside"):
         chk._kside = []
+    if not hasattr(chk, "_hside"):
+        chk._hside = []
     s = np.array(case["scores"], dtype=float)
     t = np.array(case["labels"], dtype=bool)
     kw = dict(stub or {})
@@ -705,6 +943,7 @@ def eval_one(chk, case, alg, perm, pending, stub=None):
         return
     if not stub:
         kernel_side_requests(chk, alg, case, rec)
+        hist_side_requests(chk, alg, case, s, t, out, rec)
     # kernel hypotheses
     hyp = []
     if not stub:
@@ -844,6 +1083,7 @@ def compare_model(chk, op, alg, case, out, resp_line):
 
 def flush(chk, pending, spec_too=True):
     flush_kernel_side(chk)
+    flush_hist_side(chk)
     if not pending:
         return
     lines = []
@@ -1903,6 +2143,212 @@ def check_rollup_run(chk, opts, dest, levels, calls, qcalls, raised, exp_alg, gk
 
 
 # ----------------------------------------------------------------------------------------------
+# ----------------------------------------------------------------------------------------------
+# THIRD PASS: second calls / re-used array objects, small-scope sweeps of fit_nnls and hist_data_from_scores
+# ----------------------------------------------------------------------------------------------
+def rng3(chk):
+    """the generator of the dimensions added in the third pass (a stream of its own, a function of VERIF_SEED)"""
+    if not hasattr(chk, "_rng3"):
+        import random
+
+        chk._rng3 = random.Random(f"C06-third-pass:{chk.seed}")
+    return chk._rng3
+
+
+def direct_function(alg):
+    """the estimator behind a table name, called directly (alternative entry point)"""
+    import mokapot.peps as P
+    import mokapot.qvalues as Q
+
+    return {"qvality": P.peps_from_scores_qvality, "kde_nnls": P.peps_from_scores_kde_nnls,
+            "hist_nnls": P.peps_from_scores_hist_nnls, "from_peps": Q.qvalues_from_peps,
+            "from_counts": Q.qvalues_from_counts}[alg]
+
+
+def call_quiet(f, *a):
+    with warnings.catch_warnings(), np.errstate(all="ignore"):
+        warnings.simplefilter("ignore")
+        return np.asarray(f(*a), dtype=float)
+
+
+def reuse_sequence(alg, via, sA, tA, sB, tB):
+    """the sequence of calls of one re-use case -> None, or (label of the first call whose answer is not the answer
+    for the contents at the time of the call, its answer, the reference answer, the scores of that call, answer of
+    the first call).  Reference answers are first calls on distinct objects that all stay alive."""
+    import mokapot.peps as P
+    import mokapot.qvalues as Q
+
+    if via == "entry":
+        f = (lambda s_, t_: P.peps_from_scores(s_, t_, alg)) if alg in PEP_ALGS else \
+            (lambda s_, t_: Q.qvalues_from_scores(s_, t_, alg))
+    else:
+        f = direct_function(alg)
+    # a third data set for the objects allocated after the first ones were freed
+    sC, tC = sA[::-1].copy() * 0.5 + 1.0, tA[::-1].copy()
+    live = [sA.copy(), tA.copy(), sB.copy(), tB.copy(), sC.copy(), tC.copy()]
+    ref_A = call_quiet(f, live[0], live[1])
+    ref_B = call_quiet(f, live[2], live[3])
+    ref_C = call_quiet(f, live[4], live[5])
+    s, t = sA.copy(), tA.copy()
+    out_A = call_quiet(f, s, t)
+    s[:] = sB
+    t[:] = tB                                         # same objects, new contents
+    out_B = call_quiet(f, s, t)
+    out_B2 = call_quiet(f, s, t)                      # unchanged objects, third call
+    del s, t                                          # freed: the next arrays of this size may get their address
+    s2, t2 = np.empty_like(sC), np.empty_like(tC)
+    s2[:] = sC
+    t2[:] = tC
+    out_C = call_quiet(f, s2, t2)
+    again_A = call_quiet(f, sA.copy(), tA.copy())
+    for label, o, ref, sc_ in (("first call on fresh objects", out_A, ref_A, sA),
+                               ("same objects refilled in place", out_B, ref_B, sB),
+                               ("same objects, third call", out_B2, ref_B, sB),
+                               ("new objects allocated after the first were freed", out_C, ref_C, sC),
+                               ("first data set again in fresh objects", again_A, ref_A, sA)):
+        if o.shape != ref.shape or not np.array_equal(o, ref, equal_nan=True):
+            return label, o, ref, sc_, out_A
+    return None
+
+
+def report_reuse(chk, alg, via, A, sA, tA, sB, tB, bad):
+    label, o, ref, sc_, out_A = bad
+    k = int(np.argmax(np.abs(np.nan_to_num(o - ref, nan=np.inf)))) if o.shape == ref.shape else -1
+    stale = o.shape == out_A.shape and np.array_equal(o, out_A, equal_nan=True)
+    case = dict(A, scores=sB.tolist(), labels=tB.tolist())
+    chk.spec_violation(
+        f"stale-result-on-second-call:{alg}",
+        dict(case=jsonable(case, alg), call=label, via=via, row=k,
+             reuse=dict(first_scores=[float(x).hex() for x in sA], first_labels=[bool(x) for x in tA], via=via),
+             score=float(sc_[k]) if k >= 0 else None, impl=[float(x) for x in o[:30]],
+             expected=[float(x) for x in ref[:30]], equals_first_calls_answer=bool(stale),
+             spec_on_that_answer=spec_clauses(alg, sc_, o),
+             clause="the i-th returned value belongs to the i-th input PSM: the answer of a second call "
+                    "is not the answer for the arrays' contents at the time of the call"))
+
+
+def reuse_cases(chk, n_per_alg, nmax):
+    """second calls: every estimator (through its entry point or called directly) is called on data set A, then the SAME
+    two ndarray objects are refilled in place with data set B (same length) and handed over again, then a third time
+    unchanged, then a data set C in new objects allocated right after the first were freed (which may get their
+    address), then A again.  Each answer must be the answer for the contents the arrays have at the time of the call:
+    bit for bit the answer of a first call on distinct, simultaneously alive objects with those contents."""
+    r3 = rng3(chk)
+    for alg in PEP_ALGS + Q_ALGS:
+        for i in range(n_per_alg):
+            lim = min(nmax, 400 if alg in ("qvality", "kde_nnls") else 1200)
+            A = gen_case(r3, lim, mixture="regular")
+            n = len(A["scores"])
+            # B: another data set of the same size: A's scores transformed non-monotonically (reflected around the
+            # median, rescaled, shifted), labels permuted with the scores — every position's own score changes
+            sA = np.array(A["scores"], dtype=float)
+            tA = np.array(A["labels"], dtype=bool)
+            p = np.array(random_perm(r3, n))
+            sB = (np.median(sA) - sA[p]) * r3.choice([0.5, 1.0, 2.0]) + r3.choice([0.0, 3.0])
+            tB = ~tA[p] if r3.random() < 0.5 and 50 <= int((~tA).sum()) else tA[p]
+            via = r3.choice(["entry", "direct"])
+            try:
+                bad = reuse_sequence(alg, via, sA, tA, sB, tB)
+            except BaseException as e:  # noqa: BLE001
+                if isinstance(e, KeyboardInterrupt):
+                    raise
+                chk.reject(f"reuse:{alg}:{type(e).__name__}")
+                continue
+            chk.case(None, ("reuse", alg, via, n, hash(tuple(sB.tolist()))),
+                     sample=dict(alg=alg, kind="second call on refilled arrays", via=via, n=n))
+            chk.count("reuse_case", f"{alg}:{via}")
+            if bad is not None:
+                report_reuse(chk, alg, via, A, sA, tA, sB, tB, bad)
+            else:
+                chk.count("reuse_agrees", alg)
+
+
+def sweep_fit_system(chk, nmax, n_random):
+    """the real fit_nnls(n, k, ascending=False) on all count vectors n in {0,1,2,3}^N (N <= nmax) — every pattern of
+    empty bins, including a leading / trailing one — and on random longer ones: the system it hands to
+    scipy.optimize.nnls against Model `fitRows` / `fitRhs` / `fitW2` (op fitsystem), and its return value against
+    the reversed cumulative sum of the solver's answer"""
+    import mokapot.peps as P
+
+    r3 = rng3(chk)
+    todo = []
+    for N in range(1, nmax + 1):
+        for n in itertools.product([0, 1, 2, 3], repeat=N):
+            todo.append((list(n), [round(r3.uniform(0.0, 4.0), 3) for _ in range(N)]))
+    for _ in range(n_random):
+        N = r3.randint(5, 40)
+        todo.append(([r3.choice([0, 0, 1, 2, 5, 17, 120]) for _ in range(N)], [r3.uniform(0.0, 50.0) for _ in range(N)]))
+    lines, metas = [], []
+    for n, k in todo:
+        n_arr, k_arr = np.array(n, dtype=np.int64), np.array(k, dtype=float)
+        with recording() as rec, warnings.catch_warnings(), np.errstate(all="ignore"):
+            warnings.simplefilter("ignore")
+            try:
+                p_ = np.asarray(P.fit_nnls(n_arr.copy(), k_arr.copy(), ascending=False), dtype=float)
+            except Exception as e:  # noqa: BLE001
+                chk.reject(f"fit_nnls:{type(e).__name__}")
+                continue
+        if len(rec.nnls_in) != 1 or rec.nnls_in[0] is None:
+            chk.corr_break("fitsystem", dict(n=n, k=k, error=f"nnls called {len(rec.nnls_in)} times"))
+            continue
+        lines.append(req("fitsystem", [Fraction(int(x)) for x in n[::-1]], fl(k[::-1])))
+        metas.append((n, k, rec.nnls_in[0], rec.nnls[0], p_))
+    resp = common.driver_batch(lines)
+    for (n, k, nnls_in, d, p_), r in zip(metas, resp):
+        chk.case(None, ("fitsystem", tuple(n)) if 0 in n else None, sample=dict(op="fit_nnls", n=n[:12], k=k[:12]))
+        chk.count("fit_system_empty_bins", min(4, n.count(0)))
+        chk.count("fit_system_trailing_empty_bin", bool(n[0] == 0))   # the last row of the reversed problem
+        m = dec(r.strip())
+        rows, rhs, w2 = deep(a_rat, m[0]), deep(a_rat, m[1]), deep(a_rat, m[2])
+        ok = system_agrees(nnls_in, rows, rhs, w2) and close(p_, np.cumsum(d)[::-1])
+        if ok:
+            chk.count("hist_side_agrees", "fitsystem:sweep")
+        else:
+            chk.corr_break("fitsystem", dict(n=n, k=k, impl=dict(A=[float(x) for x in nnls_in[0].ravel()[:36]],
+                                                                 b=[float(x) for x in nnls_in[1][:12]]),
+                                             model=r[:400]))
+
+
+def sweep_hist_data(chk, nmax):
+    """the real hist_data_from_scores with explicit bin edges on all score vectors over {0, 1/2, 1, 2, 3, 7/2}^n x all
+    labellings: scores on inner edges, on the first and the last edge, outside the edges; counts, densities and midpoints
+    against Model `histDataOf` / `histDensity` (op histdata)"""
+    import mokapot.peps as P
+
+    vals = [0.0, 0.5, 1.0, 2.0, 3.0, 3.5]
+    edge_sets = [[0.0, 1.0, 2.0, 3.0], [0.5, 3.0], [1.0, 1.5, 3.5]]
+    lines, metas = [], []
+    for n in range(1, nmax + 1):
+        for sc in itertools.product(vals, repeat=n):
+            for lab in itertools.product([True, False], repeat=n):
+                for edges in edge_sets:
+                    for dens in (False, True):
+                        s, t = np.array(sc, dtype=float), np.array(lab, dtype=bool)
+                        with warnings.catch_warnings(), np.errstate(all="ignore"):
+                            warnings.simplefilter("ignore")
+                            es, tc, dc = P.hist_data_from_scores(s, t, bins=np.array(edges), density=dens)
+                        lines.append(req("histdata", fl(edges), psms(s, t), dens))
+                        metas.append((sc, lab, edges, dens, np.asarray(es, float), np.asarray(tc, float), np.asarray(dc, float)))
+    resp = common.driver_batch(lines)
+    for (sc, lab, edges, dens, es, tc, dc), r in zip(metas, resp):
+        on_edge = any(x in edges for x in sc)
+        chk.case(None, ("histdata", sc, lab, tuple(edges), dens) if on_edge else None,
+                 sample=dict(op="hist_data_from_scores", scores=list(sc), labels=list(lab), edges=edges, density=dens))
+        m = dec(r.strip())
+        mes, mt, md = (np.array(deep(a_rat, x), dtype=float) for x in m)
+        # density of an empty histogram is 0/0 in numpy; the model divides by a zero total: core Rat x/0 = 0
+        nan_ok = dens and ((np.isnan(tc).all() and not any(lab[i] and edges[0] <= sc[i] <= edges[-1] for i in range(len(sc))))
+                           or (np.isnan(dc).all() and not any((not lab[i]) and edges[0] <= sc[i] <= edges[-1] for i in range(len(sc)))))
+        if nan_ok:
+            chk.reject("hist_data:empty-histogram-density-nan")
+            continue
+        if close(es, mes) and close(tc, mt) and close(dc, md):
+            chk.count("hist_side_agrees", "histdata:sweep")
+        else:
+            chk.corr_break("histdata", dict(scores=list(sc), labels=list(lab), edges=edges, density=dens,
+                                            impl=dict(t=tc.tolist(), d=dc.tolist()), model=r[:300]))
+
+
 def corpus_cases():
     p = common.VERIF / "harness" / "corpus" / "C06.json"
     if p.exists():
@@ -2114,6 +2560,9 @@ def main(chk, args):
         result_files_ext(chk, 16, ["hist_nnls", "hist_nnls", "kde_nnls"])
         rollup_files(chk, 4, ["hist_nnls"])
         sqlite_cases(chk, 2)
+        reuse_cases(chk, 2, 1200)
+        sweep_fit_system(chk, 3, 20)
+        sweep_hist_data(chk, 2)
     else:
         sweep_primitives(chk, full=True)
         run_generated(chk, 60, 600, 3000)
@@ -2124,16 +2573,19 @@ def main(chk, args):
         result_files_ext(chk, 160, ["hist_nnls"] * 14 + ["kde_nnls"] * 6 + ["qvality"] * 4)
         rollup_files(chk, 60, ["hist_nnls"] * 6 + ["kde_nnls"] * 3 + ["qvality"] * 2)
         sqlite_cases(chk, 20)
+        reuse_cases(chk, 12, 3000)
+        sweep_fit_system(chk, 5, 300)
+        sweep_hist_data(chk, 3)
     minimise(chk)
     lc = common.leanchecker("C06") if chk.tier == "thorough" else None
     if lc is not None:   # the other property modules (Props/C06File, C06Kernel, C06Tool) are re-checked as well
-        for extra_mod in ("C06File", "C06Kernel", "C06Tool"):
+        for extra_mod in ("C06File", "C06Kernel", "C06Tool", "C06Hist"):
             lc2 = common.leanchecker(extra_mod)
             lc = (lc[0] and lc2[0], lc[1] + lc2[1])
     chk.assumptions += [
         "PARTIAL claim: the numeric kernels (triqler's spline + its monotonisation, scipy gaussian_kde on the "
         "linspace grid, np.histogram bin midpoints, scipy.optimize.nnls, estimate_pi0_by_slope/np.polyfit) are "
-        "abstract parameters of the model; the theorems assume: NNLS solution d >= 0, evaluation grid ascending, "
+        "abstract parameters of the model (since the third pass: of the histogram only np.histogram_bin_edges); the theorems assume: NNLS solution d >= 0, evaluation grid ascending, "
         "qvality returns one value in [0,1] per PSM in descending-score order, non-decreasing, equal on equal "
         "scores, pi0 >= 0, kernels depend on the multiset of (score,label) only. These hypotheses are asserted on "
         "every real call (input_distribution['kernel_hypotheses:*'], kernel_hypothesis_violations)",
@@ -2162,15 +2614,24 @@ def main(chk, args):
         "recomputed by the harness with the same numpy primitives on the recorded arrays and handed to the model as its "
         "parameters; the returned value is compared exactly); the NNLS input of kde_nnls is compared within the float "
         "tolerance (plus 8 * 2^-1074 / target_pdf on grid points with subnormal densities, tallied as float-boundary "
-        "cases), NaN (0/0 on a vanishing target density: the code before 835a908) as `nan`; fit_nnls / monotonize_nnls (matrix set-up, scipy "
-        "nnls) and gaussian_kde / np.histogram stay abstract",
+        "cases), NaN (0/0 on a vanishing target density: the code before 835a908) as `nan`; gaussian_kde, np.polyfit and scipy "
+        "nnls stay abstract",
+        "third pass: np.histogram with explicit edges, the bin midpoints, density=True, n / k of estimate_trials_and_successes "
+        "(restrict=False) and the matrix / right-hand side / weights of fit_nnls and monotonize_nnls are modelled "
+        "(Model/PepsHist.lean); the joint edges np.histogram_bin_edges(scores, 'auto') are recomputed by the harness wrapper "
+        "with numpy on the array the code handed to hist_data_from_scores and given to the model as its parameter (a change of "
+        "the binning in the code shows as a correspondence break of `histdata`); counts are compared exactly, the recorded "
+        "W@A, W@k with sqrt(w2)*rows, sqrt(w2)*rhs of the model within the float tolerance; qvalues_from_counts: exact "
+        "rational densities may take another branch of estimate_pi0_by_slope than the float densities when equal counts sit "
+        "in bins whose float widths differ in the last bit — recognised (exact_flank) and tallied as a float-boundary case; "
+        "statelessness of the estimators (second calls on re-used objects) is covered by differential execution only",
         "roll-up tool: per level, the arrays handed to mokapot.brew_rollup.peps_from_scores and returned by it and by "
         "mokapot.qvalues.qvalues_from_scores are recorded by pass-through wrappers; the level's rows are identified by "
         "their position (targets file = rows with the target label, in level order); the order of the levels is that of "
         "brew_rollup.compute_rollup_levels (checked by C03)",
     ]
     chk.finish(build, RULE, search=search, lc=lc,
-               trusted_extra=["triqler.qvality, scipy.stats.gaussian_kde, scipy.optimize.nnls, np.histogram, "
+               trusted_extra=["triqler.qvality, scipy.stats.gaussian_kde, scipy.optimize.nnls, np.histogram_bin_edges, "
                               "np.polyfit (abstract kernels, hypotheses validated per call)",
                               "numpy argsort/interp/clip/cumsum/maximum.accumulate"])
 
@@ -2183,6 +2644,17 @@ def replay(chk, path):
         return 0
     common.build_and_audit("C06")
     case = from_json(c)
+    if info.get("reuse"):   # a re-use case: run the sequence of calls again
+        ru = info["reuse"]
+        sA = np.array([float.fromhex(x) for x in ru["first_scores"]], dtype=float)
+        tA = np.array(ru["first_labels"], dtype=bool)
+        sB, tB = np.array(case["scores"], dtype=float), np.array(case["labels"], dtype=bool)
+        bad = reuse_sequence(c["alg"], ru["via"], sA, tA, sB, tB)
+        if bad is not None:
+            report_reuse(chk, c["alg"], ru["via"], case, sA, tA, sB, tB, bad)
+        for sig, i in chk.spec_violations:
+            print("REPRODUCED", sig, json.dumps(i, default=str)[:1500])
+        return 1 if chk.spec_violations else 0
     pending = []
     stub = None
     if case.get("arr") == "exhaustive":
